@@ -14,6 +14,14 @@ CLAIMS = {
          "Coq proof + differential correspondence"),
  "C08": ("proof", "Coq theorem C08_child_vs_add (both requests from the same reached state, every history, every p, both backends); correspondence: GetChildVersion(p) then AddVersion(p) on replayed copies of visited states for every class of p.", "DESIGN.md 6 C08", L1,
          "Coq proof + differential correspondence"),
+ "C10": ("proof", "Coq theorems C10_snapshot_rule (acceptance iff the rule of the property, over the five most recent versions), C10_snapshot_monotone, C10_declined_no_effect, C10_base_corner (the open corner characterised) for every history and backend; correspondence: exhaustive small scope (chain length x base x existing snapshot position x requested version) plus random histories on both real backends with dumps before/after, compared with the extracted model and with a rule oracle written from the property text.", "DESIGN.md 6 C10", L1,
+         "Coq proof + exhaustive small-scope differential correspondence"),
+ "C11": ("proof", "Coq theorems C11_get_snapshot_latest (GetSnapshot = the most recently accepted upload, recomputed from requests/responses by the rule) and C11_snapshot_usable_base (walk from the snapshot id yields the rest of the chain, never gone) for every history and backend; correspondence: GetSnapshot + walk from the snapshot after every operation on both real backends. The concurrent half (overlap with AddVersion) is decided under C03.", "DESIGN.md 6 C11", L1,
+         "Coq proof + differential correspondence"),
+ "C13": ("proof", "Coq theorems C13_backends_agree / C13_backends_refine_contract (both backend models give the abstract store's responses on every history) and C13_reopen_noop; correspondence: lock-step run of the same symbolic histories on the real in-memory and SQLite backends with reopen at random points, responses compared across backends and raw SQLite rows compared with the table model.", "DESIGN.md 6 C13", L1 + " Reopen is the identity in the model (CREATE ... IF NOT EXISTS): that SqliteStorage::new really preserves the tables is established only by the lock-step run.",
+         "Coq proof (two refinements of one abstract store) + lock-step differential run"),
+ "C18": ("proof", "Coq theorems: C18_reads_pure and C18_rejected_add_version_pure (Leibniz equality of the InMem maps / SQLite tables for ANY store contents), C18_reads_no_effect / C18_conflict_no_effect / C18_declined_snapshot_no_effect (deleting the request changes no later response, complete dumps included); correspondence: complete dumps of all clients and raw SQLite rows before and after every operation on the real backends, non-mutating outcomes decided by the rule.", "DESIGN.md 6 C18", L1,
+         "Coq proof + differential correspondence with full dumps"),
  "C12": ("proof", "Coq theorems over all i64/u32 targets and all measures (no overflow, high>=low, classification, monotonicity) about a model of the urgency arithmetic; tied to /repo by running the extracted model and the real Server on a grid of targets (type extremes included) and on real histories; plus a Python oracle from the property text on the implementation's own trace.", "DESIGN.md 6 C12", L1 + " Counter bound < 2^32 is in the statement.",
          "Coq proof (lia over Z) + differential correspondence"),
 }
